@@ -1,4 +1,6 @@
 import GohtVerif.Proofs.Lemmas.LexQueue
+import GohtVerif.Proofs.Lemmas.LexSafeStates
+import GohtVerif.Proofs.Lemmas.LexRunes
 /-! # C06 — the compiler is total: property theorems (lexer part)
 
 Statements only; helper lemmas live in `Proofs/Lemmas`. -/
@@ -45,8 +47,32 @@ theorem lex_never_deadlocks (input : GoStr) : (lexResult input).outcome ≠ .dea
 /-- non-vacuity: a concrete import group is lexed completely. -/
 example : (lexResult [105, 109, 112, 111, 114, 116, 32, 40, 10, 34, 97, 34, 10, 34, 98, 34, 10, 41, 10]).outcome = .ok := by decide +kernel
 
--- PLANNED: run_never_panics — ∀ input, (lexResult input).outcome ≠ .panic (invariant `Good` over all primitives)
--- PLANNED: run_never_stuck — UnreadRune is only ever called right after a successful ReadRune
+/-- **No panic, no misplaced `UnreadRune`** — from a configuration that meets the invariant, no
+state, no amount of fuel and no input makes the run end in `panic` (slice or index out of range in
+`backup`, `skip`, `position`) or `stuck` (`UnreadRune` without a preceding successful `ReadRune`).
+The invariant `Inv` is preserved by every one of the 49 state functions (`step_inv`). -/
+theorem run_never_panics (n : Nat) (st : St) (l : L) (acc : List Tok) (h : Inv l) :
+    (run n st l acc).outcome ≠ .panic ∧ (run n st l acc).outcome ≠ .stuck := by
+  induction n generalizing st l acc with
+  | zero => simp [run]
+  | succ n ih =>
+    have h1 : Inv (step st { l with out := [] }).1 := step_inv st _ h
+    obtain ⟨hp, hs, _, _⟩ := h1
+    unfold run
+    split
+    · simp
+    · simp only [hp, hs, Bool.false_eq_true, if_false]
+      split
+      · simp
+      · split
+        · simp
+        · exact ih _ _ _ (step_inv st _ h)
+
+/-- for every input: the lexer neither panics nor calls `UnreadRune` out of turn -/
+theorem lex_never_panics (input : GoStr) :
+    (lexResult input).outcome ≠ .panic ∧ (lexResult input).outcome ≠ .stuck :=
+  run_never_panics _ _ _ _ (inv_initL input)
+
 -- PLANNED: run_has_enough_fuel — lexicographic measure (remaining runes, rank state) decreases per step
 -- PLANNED: parse_total / emit_total — parser loop measure, emitter structural
 
